@@ -190,6 +190,15 @@ def run(ctx):
             cm = [x for x in cfg.comparisons(ap) if x.op in ("Eq", "Ne") and ("agg", TLT, "TxReverted") in (fl.of_operand(x.l) | fl.of_operand(x.r))]
             held = any(cfg.must_pass(ap, (x.true_edges if x.op == "Eq" else x.false_edges), {to_recv[0]})[0] for x in cm)
         run.instance(R4, {"obligation": "re-confirm: a TxReverted entry becomes TxReceived with reverted_after = None and confirmed = true"}, held=held)
+        # ... and that branch is open to an output whose status is Reverted (the output of a reverted payment is Reverted,
+        # not Unconfirmed): a test `status == Reverted` whose true side reaches the restoring assignment
+        if held:
+            OSN = c.LW + "types::OutputStatus"
+            cr = [x for x in cfg.comparisons(ap) if x.op == "Eq" and ("agg", OSN, "Reverted") in (fl.of_operand(x.l) | fl.of_operand(x.r))]
+            h5 = any(to_recv[0] in cfg.reach(ap, starts=[d_ for (_s, d_) in x.true_edges]) for x in cr)
+            run.instance(R4, {"obligation": "re-confirm: the restoring branch is entered for an output whose status is Reverted", "status == Reverted tests": len(cr)}, held=h5)
+            if not h5:
+                run.finding(Finding(R4, ap.id, "the branch that restores a TxReverted entry is not entered for a Reverted output: when the payment is mined again its output becomes Unspent but the entry stays reverted and unconfirmed", site=ap.loc()))
         if not held:
             run.finding(Finding(R4, ap.id, "re-confirmation no longer restores a reverted entry", site=ap.loc()))
         held = len(to_rev) == 1 and bool(conf_false)
@@ -297,6 +306,31 @@ def run(ctx):
         run.instance(R9, {"fn": "owner::scan", "obligation": "scan::scan only after update_outputs(.., true) Ok (the constant true, not a condition on the start height)"}, held=held)
         if not held:
             run.finding(Finding(R9, osc.id, "the refresh in front of a scan no longer covers all records on every path: confirmed outputs that a reorganisation removed are not compared with the node, the payment stays confirmed and spendable", site=osc.loc()))
+        # ... of every account: the scan matches the chain against the records of all accounts and only looks at the status
+        # of the records it matches, so a payment into an account that is not the active one is reverted only if that
+        # account was refreshed too (seed C18m: update_outputs(.., true, false))
+        uo_all = [(ub, ut) for ub, ut in full if ut.get("f", "").startswith(UO9) and len(ut["a"]) > 3 and vf.const_of_operand(osc, ut["a"][3]) == "1"]
+        uo_all += [(ub, ut) for ub, ut in full if not ut.get("f", "").startswith(UO9)]
+        held = refreshed_before(osc, scs, uo_all)
+        run.instance(R9, {"fn": "owner::scan", "obligation": "that refresh covers every account: update_outputs(.., update_all = true, all_accounts = true)"}, held=held)
+        if not held:
+            run.finding(Finding(R9, osc.id, "the refresh in front of a scan covers the active account only: a payment into another account that a reorganisation removed stays confirmed and spendable after the scan", site=osc.loc()))
+        uo9 = ctx.fn(UO9)
+        if uo9 is None:
+            run.error("C18.R9: api_impl::owner::update_outputs not found")
+        else:
+            ap = cfg.find_calls(uo9, "*::acct_path_iter")
+            ro = cfg.find_calls(uo9, c.LW + "internal::updater::refresh_outputs")
+            aa = c.param(uo9, "all_accounts", "bool")
+            held = bool(ap) and bool(ro) and aa is not None
+            if held:
+                g9 = cfg.local_guard(uo9, aa)
+                # acct_path_iter is on the all_accounts == true side only, parent_key_id on the false side only
+                apb = {b for b, _t in ap}
+                held = bool(g9.ok) and cfg.must_pass(uo9, g9.ok, apb)[0] and not cfg.must_pass(uo9, g9.fail, apb)[0] if g9.fail else False
+            run.instance(R9, {"fn": "owner::update_outputs", "obligation": "all_accounts = true refreshes the accounts listed by acct_path_iter"}, held=held)
+            if not held:
+                run.finding(Finding(R9, uo9.id, "update_outputs(all_accounts = true) no longer walks the account list", site=uo9.loc()))
     R10 = "C18.R10"
     run.rule(R10, "a payment re-created by a restore can later be recognised as reverted: its log entry carries the kernel excess the revert detection looks up", floor=1)
     rmo = ctx.fn(c.LW + "internal::scan::restore_missing_output")
